@@ -20,6 +20,7 @@ RULE = (
     "non-trivial = accepted and (re-encoded bytes differ from the consumed input, or unknown option / unknown flag bits / "
     "unreferenced options present); distinct = distinct case JSON"
 )
+EXHAUSTIVE = "all 65536 combinations of message-type byte x return-code byte in an otherwise valid SOME/IP message, and all 256 option type bytes x 5 payload shapes (fixed cases)"
 ASSUMPTIONS = [
     "kept information is compared field-wise through harness/wire.py's decoding of the input and of the re-encoded bytes",
     "inputs rejected by the decoder are out of scope here (C03)",
@@ -51,6 +52,15 @@ def fixed_cases(tier):
                         "options": [{"raw": {"type": t, "data": data}}, {"raw": {"type": t ^ 0xFF, "data": "00aa"}}],
                         "entries": [dict(type=1, service=1, instance=1, major=1, ttl=3, minor=0, idx1=0, n1=1, idx2=1, n2=0)]}})
     return out
+
+
+def enum_size(tier):
+    return 256 * 256
+
+
+def enum_case(tier, idx):
+    # every value of the message-type byte x every value of the return-code byte of an otherwise valid message
+    return {"kind": "someip-raw", "hex": wire.encode_someip(0x1234, 0x5678, 0x9ABC, 0xDEF0, 7, idx >> 8, idx & 0xFF, b"xyz").hex() + "aa"}
 
 
 def _sem_opts(options):
@@ -110,6 +120,7 @@ def run_case(case):
         v2, r2 = hdr.SOMEIPHeader.parse(bytes(b2))
         require(v2 == v and bytes(r2) == b"", "C20.someip-cycle", lambda: f"{v} -> {v2}")
         return ok(True, labels + ["accepted"])
+
     if case["kind"] == "someip":
         m = case["msg"]
         raw = c01._wire_msg(m) + bytes.fromhex(case.get("suffix", ""))
